@@ -7,27 +7,29 @@ namespace GoLevel.Dur
 /-- a job is not disturbed by what the writer does: it changes `w`, `issued`, `hi`, `mem`, `seq` and the
     current journal only -/
 theorem JobOK.writer {cfg : Cfg} {s : St} {d : Disk} {j : Job} (h : JobOK cfg s d j) (hr : s.phase = .running)
-    (w' : WPc) (i' : List Issue) (h' : Nat) (m' : List Grp) (q' : Nat) (f : LogFile Grp → LogFile Grp) :
+    (htr : s.tr = none) (w' : WPc) (i' : List Issue) (h' : Nat) (m' : List Grp) (q' : Nat) (f : LogFile Grp → LogFile Grp) :
     JobOK cfg { s with w := w', issued := i', hi := h', mem := m', seq := q' }
       { d with journals := d.journals.modify s.jcur f } j := by
-  obtain ⟨h1, h2, h3, h4, h5, h6, h7, h8, h9, h10⟩ := h
-  have hflush : j.kind = .flush := by
+  obtain ⟨h1, h2, h3, h4, h5, h6, h7, h8, h9, h10, h11, h12⟩ := h
+  have hkinds : j.kind = .flush ∨ j.kind = .compaction := by
     unfold JobKindOK at h2
-    cases hk : j.kind <;> rw [hk] at h2 <;> simp_all
+    cases hk : j.kind <;> rw [hk] at h2 <;> simp_all [Holds]
   have hmk : j.mkJournal = none := by
     unfold JobKindOK at h2
-    rw [hflush] at h2
-    simp only at h2
-    obtain ⟨_, h2⟩ := h2
-    split at h2
-    · exact h2.2.2.2.2.1
-    · exact h2.2.2.2
-    · exact absurd h2 id
+    rcases hkinds with hk | hk
+    · rw [hk] at h2
+      simp only at h2
+      obtain ⟨_, h2⟩ := h2
+      split at h2
+      · exact h2.2.2.2.2.1
+      · exact h2.2.2.2
+      · exact absurd h2 id
+    · rw [hk] at h2
+      exact h2.2.1
   have h2' : JobKindOK { s with w := w', issued := i', hi := h', mem := m', seq := q' } j := by
     unfold JobKindOK at h2 ⊢
-    rw [hflush] at h2 ⊢
-    exact h2
-  refine ⟨h1, h2', h3, h4, h5, h6, h7, ?_, ?_, h10⟩
+    rcases hkinds with hk | hk <;> rw [hk] at h2 ⊢ <;> exact h2
+  refine ⟨h1, h2', h3, h4, h5, h6, h7, ?_, ?_, h10, h11, h12⟩
   · unfold MkJournalOK; rw [hmk]; trivial
   · refine h9.imp (fun v hv => ?_)
     unfold RemovalsOK at hv ⊢
@@ -121,11 +123,15 @@ theorem RunOK.writer {cfg : Cfg} {s : St} {d : Disk} (h : RunOK cfg s d)
     (w' : WPc) (i' : List Issue) (h' : Nat) (m' : List Grp) (q' : Nat) (f : LogFile Grp → LogFile Grp)
     (hq : s.seq ≤ q') (hnew : ∀ g ∈ m' ++ inflight w', (g ∈ s.mem ++ inflight s.w) ∨ s.seq < g.seq)
     (hall : ∀ jf, lookup d.journals s.jcur = some jf → (f jf).all = m' ++ inflight w')
-    (hws : WSeqOK { s with w := w', issued := i', hi := h', mem := m', seq := q' }) :
+    (hws : WSeqOK { s with w := w', issued := i', hi := h', mem := m', seq := q' }) (htr : s.tr = none) :
     RunOK cfg { s with w := w', issued := i', hi := h', mem := m', seq := q' }
       { d with journals := d.journals.modify s.jcur f } := by
   obtain ⟨r1, r2, r3, r4, r5, r6, r7, r8, r9⟩ := h
-  refine ⟨r1, r2, ?_, ?_, ?_, hws, r7.writer w' i' h' m' q' f hq hnew, ?_, r9⟩
+  have htr' : TrOK { s with w := w', issued := i', hi := h', mem := m', seq := q' } := by
+    unfold TrOK
+    show Holds' s.tr _
+    rw [htr]; trivial
+  refine ⟨⟨r1.1, htr'⟩, r2, ?_, ?_, ?_, hws, r7.writer w' i' h' m' q' f hq hnew, ?_, r9⟩
   · rw [holds_iff] at r3 ⊢
     obtain ⟨jf, hjf, _⟩ := r3
     refine ⟨f jf, ?_, hall jf hjf⟩
@@ -143,16 +149,41 @@ theorem RunOK.writer {cfg : Cfg} {s : St} {d : Disk} (h : RunOK cfg s d)
     · rw [if_pos hpc]; exact Or.inl hpc
     · rw [if_neg hpc] at hjn ⊢; exact hv0 p0 hp0 hjn
 
+/-- a transaction job needs an open transaction -/
+theorem Inv.not_trWindow_of_tr_none {cfg : Cfg} {s : St} {d : Disk} (h : Inv cfg s d) (htr : s.tr = none) :
+    ¬ TrWindow s := by
+  unfold TrWindow
+  cases hj : s.job with
+  | none => exact id
+  | some j =>
+    intro hw
+    have hok := h.job
+    rw [hj] at hok
+    have hk := (hok : JobOK cfg s d j).kind
+    unfold JobKindOK at hk
+    rw [hw.1] at hk
+    simp only at hk
+    rw [htr] at hk
+    exact hk.2.2.2.2
+
+theorem RunOK.tr_none_of_w {cfg : Cfg} {s : St} {d : Disk} (h : RunOK cfg s d) (hw : s.w ≠ .idle) : s.tr = none := by
+  have := h.norecov.2
+  unfold TrOK at this
+  cases ht : s.tr with
+  | none => rfl
+  | some g => rw [ht] at this; exact absurd this.1 hw
+
 theorem inv_wAppend {cfg : Cfg} {s : St} {d : Disk} (h : Inv cfg s d) {recs : List Batch.Rec} {sync : Bool}
     {s' : St} {d' : Disk} (hs : stepWriter cfg s d (.wAppend recs sync .ok) = some (s', d')) : Inv cfg s' d' := by
   simp only [stepWriter, Disk.exec, Disk.apply] at hs
   split at hs
   · rename_i hg
-    obtain ⟨hph, hw, hrecs, _⟩ := hg
+    obtain ⟨hph, hw, hrecs, htr⟩ := hg
     simp only [Outcome.failed, Bool.false_eq_true, if_false, Option.some.injEq, Prod.mk.injEq] at hs
     obtain ⟨rfl, rfl⟩ := hs
     have hrun := h.run hph
     have hb := h.bounds (by rw [hph]; decide)
+    have hntw := h.not_trWindow_of_tr_none htr
     have hwseq := hrun.wseq
     unfold WSeqOK at hwseq
     rw [hw] at hwseq
@@ -180,13 +211,14 @@ theorem inv_wAppend {cfg : Cfg} {s : St} {d : Disk} (h : Inv cfg s d) {recs : Li
       apply DiskOK.journal_append h.disk s.jcur g hrun.jmax ⟨hgi, hrecs⟩ _ hmust hiss
       intro mf hc k hk v hv
       have hbv := hb.all mf hc k hk v hv
+      rw [seqHi_eq hntw] at hbv
       have hok := h.disk.allViews mf hc k hk v hv
       refine ⟨by rw [hgseq]; omega, fun x hx => ?_, fun p hp x hx => ?_⟩
       · have := (hok.tseq x hx).1; rw [hgseq]; omega
       · have := hold mf hc k hk v hv p hp x hx; rw [hgseq]; exact this
     · exact h.mm.of_same rfl rfl
     · intro _
-      exact hb.of_same rfl (Nat.le_refl _) (Nat.le_refl _) (fun _ => ⟨hph, Nat.le_refl _⟩)
+      exact hb.of_same rfl (seqHi_le_of_not_window hntw hntw (Nat.le_refl _)) (Nat.le_refl _) (fun _ => ⟨hph, Nat.le_refl _⟩)
     · intro _
       apply hrun.writer (.appended g) _ _ s.mem s.seq (·.append g) (Nat.le_refl _)
       · intro x hx
@@ -203,9 +235,10 @@ theorem inv_wAppend {cfg : Cfg} {s : St} {d : Disk} (h : Inv cfg s d) {recs : Li
       · show WSeqOK _
         unfold WSeqOK
         exact ⟨rfl, hrecs, hgi, hwseq⟩
+      · exact htr
     · intro hc; rw [hph] at hc; cases hc
     · intro hc; rw [hph] at hc; cases hc
-    · exact h.job.imp (fun j hj => hj.writer hph _ _ _ _ _ _)
+    · exact h.job.imp (fun j hj => hj.writer hph htr _ _ _ _ _ _)
   · cases hs
 
 
@@ -234,19 +267,19 @@ theorem RunOK.writer' {cfg : Cfg} {s : St} {d : Disk} (h : RunOK cfg s d)
     (w' : WPc) (i' : List Issue) (h' : Nat) (m' : List Grp) (q' : Nat)
     (hq : s.seq ≤ q') (hnew : ∀ g ∈ m' ++ inflight w', (g ∈ s.mem ++ inflight s.w) ∨ s.seq < g.seq)
     (hall : m' ++ inflight w' = s.mem ++ inflight s.w)
-    (hws : WSeqOK { s with w := w', issued := i', hi := h', mem := m', seq := q' }) :
+    (hws : WSeqOK { s with w := w', issued := i', hi := h', mem := m', seq := q' }) (htr : s.tr = none) :
     RunOK cfg { s with w := w', issued := i', hi := h', mem := m', seq := q' } d := by
   have := h.writer w' i' h' m' q' id hq hnew (fun jf hjf => by
     have hl := h.jcur
     rw [hjf] at hl
     simp only [Holds, id] at hl ⊢
-    rw [hl, hall]) hws
+    rw [hl, hall]) hws htr
   rwa [disk_modify_id] at this
 
 theorem JobOK.writer' {cfg : Cfg} {s : St} {d : Disk} {j : Job} (h : JobOK cfg s d j) (hr : s.phase = .running)
-    (w' : WPc) (i' : List Issue) (h' : Nat) (m' : List Grp) (q' : Nat) :
+    (htr : s.tr = none) (w' : WPc) (i' : List Issue) (h' : Nat) (m' : List Grp) (q' : Nat) :
     JobOK cfg { s with w := w', issued := i', hi := h', mem := m', seq := q' } d j := by
-  have := h.writer hr w' i' h' m' q' id
+  have := h.writer hr htr w' i' h' m' q' id
   rwa [disk_modify_id] at this
 
 theorem inv_wApply {cfg : Cfg} {s : St} {d : Disk} (h : Inv cfg s d) {s' : St} {d' : Disk}
@@ -259,6 +292,8 @@ theorem inv_wApply {cfg : Cfg} {s : St} {d : Disk} (h : Inv cfg s d) {s' : St} {
     have hph := h.running_of_w hwne
     have hrun := h.run hph
     have hb := h.bounds (by rw [hph]; decide)
+    have htr := hrun.tr_none_of_w hwne
+    have hntw := h.not_trWindow_of_tr_none htr
     have hinfl : inflight s.w = [g] := by rcases hw with ⟨e, _⟩ | e <;> rw [e] <;> rfl
     have hwseq : g.seq = s.seq + 1 ∧ g.recs ≠ [] ∧ g ∈ issuedGrps s ∧ ∀ h ∈ s.mem, h.fin ≤ s.seq + 1 := by
       have := hrun.wseq
@@ -273,7 +308,7 @@ theorem inv_wApply {cfg : Cfg} {s : St} {d : Disk} (h : Inv cfg s d) {s' : St} {
       · simp only [e] at hx ⊢; exact hx
     · exact h.mm.of_same rfl rfl
     · intro _
-      exact hb.of_same rfl (Nat.le_refl _) (Nat.le_refl _) (fun _ => ⟨hph, Nat.le_refl _⟩)
+      exact hb.of_same rfl (seqHi_le_of_not_window hntw hntw (Nat.le_refl _)) (Nat.le_refl _) (fun _ => ⟨hph, Nat.le_refl _⟩)
     · intro _
       apply hrun.writer' (.applied g) s.issued s.hi (s.mem ++ [g]) s.seq (Nat.le_refl _)
       · intro x hx
@@ -288,9 +323,10 @@ theorem inv_wApply {cfg : Cfg} {s : St} {d : Disk} (h : Inv cfg s d) {s' : St} {
         rcases hx with hx | rfl
         · exact Or.inr (hwseq.2.2.2 x hx)
         · exact Or.inl rfl
+      · exact htr
     · intro hc; rw [hph] at hc; cases hc
     · intro hc; rw [hph] at hc; cases hc
-    · exact h.job.imp (fun j hj => hj.writer' hph _ _ _ _ _)
+    · exact h.job.imp (fun j hj => hj.writer' hph htr _ _ _ _ _)
   simp only [stepWriter] at hs
   split at hs
   · rename_i g hw
@@ -318,6 +354,8 @@ theorem inv_wPublish {cfg : Cfg} {s : St} {d : Disk} (h : Inv cfg s d) {s' : St}
     have hph := h.running_of_w (by rw [hw]; simp)
     have hrun := h.run hph
     have hb := h.bounds (by rw [hph]; decide)
+    have htr := hrun.tr_none_of_w (by rw [hw]; simp)
+    have hntw := h.not_trWindow_of_tr_none htr
     have hwseq := hrun.wseq
     unfold WSeqOK at hwseq
     rw [hw] at hwseq
@@ -333,7 +371,7 @@ theorem inv_wPublish {cfg : Cfg} {s : St} {d : Disk} (h : Inv cfg s d) {s' : St}
       exact hx
     · exact h.mm.of_same rfl rfl
     · intro _
-      exact hb.of_same rfl hq (Nat.le_refl _) (fun _ => ⟨hph, Nat.le_refl _⟩)
+      exact hb.of_same rfl (seqHi_le_of_not_window hntw hntw hq) (Nat.le_refl _) (fun _ => ⟨hph, Nat.le_refl _⟩)
     · intro _
       apply hrun.writer' (.published g) s.issued s.hi s.mem (g.fin - 1) hq
       · intro x hx; rw [hw]; exact Or.inl hx
@@ -345,9 +383,10 @@ theorem inv_wPublish {cfg : Cfg} {s : St} {d : Disk} (h : Inv cfg s d) {s' : St}
         rcases hmem x hx with rfl | h1
         · omega
         · omega
+      · exact htr
     · intro hc; rw [hph] at hc; cases hc
     · intro hc; rw [hph] at hc; cases hc
-    · exact h.job.imp (fun j hj => hj.writer' hph _ _ _ _ _)
+    · exact h.job.imp (fun j hj => hj.writer' hph htr _ _ _ _ _)
   · cases hs
 
 theorem inv_wAck {cfg : Cfg} {s : St} {d : Disk} (h : Inv cfg s d) {s' : St} {d' : Disk}
@@ -360,6 +399,8 @@ theorem inv_wAck {cfg : Cfg} {s : St} {d : Disk} (h : Inv cfg s d) {s' : St} {d'
     have hph := h.running_of_w (by rw [hw]; simp)
     have hrun := h.run hph
     have hb := h.bounds (by rw [hph]; decide)
+    have htr := hrun.tr_none_of_w (by rw [hw]; simp)
+    have hntw := h.not_trWindow_of_tr_none htr
     have hwseq := hrun.wseq
     unfold WSeqOK at hwseq
     rw [hw] at hwseq
@@ -377,7 +418,7 @@ theorem inv_wAck {cfg : Cfg} {s : St} {d : Disk} (h : Inv cfg s d) {s' : St} {d'
         exact hx
     · exact h.mm.of_same rfl rfl
     · intro _
-      exact hb.of_same rfl (Nat.le_refl _) (Nat.le_refl _) (fun _ => ⟨hph, Nat.le_refl _⟩)
+      exact hb.of_same rfl (seqHi_le_of_not_window hntw hntw (Nat.le_refl _)) (Nat.le_refl _) (fun _ => ⟨hph, Nat.le_refl _⟩)
     · intro _
       apply hrun.writer' .idle _ s.hi s.mem s.seq (Nat.le_refl _)
       · intro x hx; rw [hw]; exact Or.inl hx
@@ -385,9 +426,10 @@ theorem inv_wAck {cfg : Cfg} {s : St} {d : Disk} (h : Inv cfg s d) {s' : St} {d'
       · show WSeqOK _
         unfold WSeqOK
         exact hwseq
+      · exact htr
     · intro hc; rw [hph] at hc; cases hc
     · intro hc; rw [hph] at hc; cases hc
-    · exact h.job.imp (fun j hj => hj.writer' hph _ _ _ _ _)
+    · exact h.job.imp (fun j hj => hj.writer' hph htr _ _ _ _ _)
   · cases hs
 
 theorem inv_wSync {cfg : Cfg} {s : St} {d : Disk} (h : Inv cfg s d) {s' : St} {d' : Disk}
@@ -402,6 +444,8 @@ theorem inv_wSync {cfg : Cfg} {s : St} {d : Disk} (h : Inv cfg s d) {s' : St} {d
       have hph : s.phase = .running := h.running_of_w (by rw [hw]; simp)
       have hrun := h.run hph
       have hb := h.bounds (by rw [hph]; decide)
+      have htr := hrun.tr_none_of_w (by rw [hw]; simp)
+      have hntw := h.not_trWindow_of_tr_none htr
       have hwseq := hrun.wseq
       unfold WSeqOK at hwseq
       rw [hw] at hwseq
@@ -422,7 +466,7 @@ theorem inv_wSync {cfg : Cfg} {s : St} {d : Disk} (h : Inv cfg s d) {s' : St} {d
           exact (hb.all mf hc k hk v hv).2.2 hph
       · exact h.mm.of_same rfl rfl
       · intro _
-        exact hb.of_same rfl (Nat.le_refl _) (Nat.le_refl _) (fun _ => ⟨hph, Nat.le_refl _⟩)
+        exact hb.of_same rfl (seqHi_le_of_not_window hntw hntw (Nat.le_refl _)) (Nat.le_refl _) (fun _ => ⟨hph, Nat.le_refl _⟩)
       · intro _
         apply hrun.writer (.synced g) s.issued s.hi s.mem s.seq (·.sync) (Nat.le_refl _)
         · intro x hx
@@ -435,9 +479,10 @@ theorem inv_wSync {cfg : Cfg} {s : St} {d : Disk} (h : Inv cfg s d) {s' : St} {d
         · show WSeqOK _
           unfold WSeqOK
           exact hwseq
+        · exact htr
       · intro hc; rw [hph] at hc; cases hc
       · intro hc; rw [hph] at hc; cases hc
-      · exact h.job.imp (fun j hj => hj.writer hph _ _ _ _ _ _)
+      · exact h.job.imp (fun j hj => hj.writer hph htr _ _ _ _ _ _)
     · cases hs
   · cases hs
 
